@@ -252,6 +252,7 @@ func runC14(c *Ctx) {
 	ruleFailedLookupDeref(c, "R14.8")
 	ruleWaiterSendsUnderLock(c, "R14.9")
 	ruleOneShotCallbacks(c, "R14.10")
+	ruleInterceptorsNilSafe(c, "R14.11")
 }
 
 // R14.1 -------------------------------------------------------------------------------------------
